@@ -145,25 +145,37 @@ def interpolant(repo, rep, tier):
 
         def nd(a, b):
             if (a, b) not in memo:
-                outs, _ = symx.eval_function(repo, MOD, CLS + "._newton_diff", arg_terms={"self": T.sym("self"), "start": T.num(a), "end": T.num(b)},
+                outs, _ = symx.eval_function(repo, MOD, CLS + "._newton_diff", arg_terms=dict(extra_args, **{"self": T.sym("self"), an_[1]: T.num(a), an_[2]: T.num(b)}),
                                              extra_env={"self._x": xs, "self._y": ys, "self._tol": tol}, unroll=12)
                 t = symx.return_term(outs)
                 if t is None:
                     raise AnalysisError("_newton_diff(%d, %d) has no value" % (a, b))
                 mp = {}
                 for c in set(x for x in T.walk(t) if x[0] == "call" and x[1].endswith("._newton_diff")):
-                    if c[-2][0] != "num" or c[-1][0] != "num":
+                    if len(c) < 5 or c[3][0] != "num" or c[4][0] != "num":
                         raise AnalysisError("recursive call with non-literal indices: " + T.show(c)[:80])
-                    if (int(c[-2][1]), int(c[-1][1])) == (a, b) or not (0 <= c[-2][1] <= c[-1][1] < n) or (c[-1][1] - c[-2][1]) >= (b - a):
+                    if (int(c[3][1]), int(c[4][1])) == (a, b) or not (0 <= c[3][1] <= c[4][1] < n) or (c[4][1] - c[3][1]) >= (b - a):
                         raise AnalysisError("recursion does not descend: " + T.show(c)[:80])
-                    mp[c] = nd(int(c[-2][1]), int(c[-1][1]))
+                    mp[c] = nd(int(c[3][1]), int(c[4][1]))
                 memo[(a, b)] = T.subst(t, mp) if mp else t
             return memo[(a, b)]
         try:
             fn_ = repo.func(MOD, CLS + "._newton_diff")
             an_ = [a.arg for a in fn_.args.args]
-            if an_ != ["self", "start", "end"]:
+            n_req = len(an_) - len(fn_.args.defaults)
+            if len(an_) < 3 or an_[0] != "self" or n_req > 3:
                 raise AnalysisError("_newton_diff signature changed: %s" % an_)
+            # further parameters with defaults (a memo table, say) take their defaults: they must not change the value
+            extra_args = {}
+            for nm_, d_ in zip(an_[n_req:], fn_.args.defaults):
+                if nm_ in an_[:3]:
+                    continue
+                if isinstance(d_, ast.Constant) and d_.value is None:
+                    extra_args[nm_] = T.NONE
+                elif isinstance(d_, ast.Constant) and isinstance(d_.value, (int, float)) and not isinstance(d_.value, bool):
+                    extra_args[nm_] = T.num(Fraction(str(d_.value)))
+                else:
+                    raise AnalysisError("_newton_diff: default of `%s` not a literal" % nm_)
             table = [nd(0, i) for i in range(n)]
             env = {"self._x": xs, "self._y": ys, "self._table": cs, "self._tol": tol}
             fc = repo.func(MOD, CLS + ".__call__")
@@ -214,6 +226,11 @@ def interpolant(repo, rep, tier):
                           % (n, deg, n), obligation=True)
             return
         sub_c = {cs[1 + i]: table[i] for i in range(n)}
+        impure = [x for tt in table for x in T.walk(tt) if x[0] not in ("add", "mul", "pow", "num", "sym")]
+        if impure:
+            # the coefficients did not come out as rational functions of the table (containers, calls, conditions left over): no identity to test
+            rep.inconcl("R-INTERPOLANT", site, "n=%d: Newton coefficients not reduced to rational functions of the table (%s)" % (n, T.show(impure[0])[:80]))
+            return
         # (c) symbolic in everything
         if n <= nmax_sym:
             for k in range(n):
@@ -331,7 +348,9 @@ def table_complete(repo, rep):
                 if leaf[0] != "list":
                     unknown = "coefficient table is not built as a list: " + T.show(leaf)[:60]
                     break
-                if leaf != want and bad is None:
+                # extra arguments (a memo table, flags) do not change which difference is computed: compare (receiver, start, end)
+                lf = ("list",) + tuple(x[:5] if (x[0] == "call" and x[1].endswith("_newton_diff") and len(x) > 5) else x for x in leaf[1:])
+                if lf != want and bad is None:
                     if len(leaf) != len(want):
                         bad = (n, "holds %d coefficient(s) for %d points when %s" % (len(leaf) - 1, n, T.show(T.land(*conds))[:120] if conds else "always"))
                     elif all(x[0] == "call" and x[1].endswith("_newton_diff") for x in leaf[1:]):
@@ -633,7 +652,8 @@ def find_dup_check(fn, helpers=()):
         loops = [n for n in ast.walk(s) if isinstance(n, ast.For)]
         raises_ = [n for n in ast.walk(s) if isinstance(n, ast.Raise) and exc_name(n) == "ValueError"]
         tests = [n for n in ast.walk(s) if isinstance(n, ast.If) and "abs(" in norm_text(n.test) and "<" in norm_text(n.test)]
-        return len(loops) >= 2 and bool(raises_) and bool(tests)
+        pairwise = len(loops) >= 2 or any(isinstance(l.iter, ast.Call) and norm_text(l.iter.func).split(".")[-1] == "combinations" for l in loops)
+        return pairwise and bool(raises_) and bool(tests)
     for i, s in enumerate(fn.body):
         if isinstance(s, ast.For) and is_dup_loop(s):
             return i
@@ -660,7 +680,12 @@ def order(repo, rep):
             i_tab = i
     nested_tab = [n for n in ast.walk(fn) if isinstance(n, ast.Call) and norm_text(n.func) == "self._compute_table"]
     site = "%s.%s" % (MOD, qual)
-    if i_dup is None or i_ord is None or i_tab is None or not (i_dup < i_ord < i_tab) or len(nested_tab) != 1:
+    if i_dup is None or i_ord is None or i_tab is None or len(nested_tab) != 1:
+        # a step is not written in a form this rule recognises: no evidence either way (that duplicated abscissae are refused is decided by
+        # R-RANGE-REFUSE on the evaluated constructor, that the stored table is sorted by R-ORDERINGS)
+        rep.inconcl("R-ORDER", site, "steps not recognised as top-level statements of set(): duplicate check (%s), _order_points (%s), _compute_table (%s, %d call(s))"
+                    % (i_dup, i_ord, i_tab, len(nested_tab)))
+    elif not (i_dup < i_ord < i_tab):
         rep.violation("R-ORDER", site, "order", "duplicate check (%s), _order_points (%s) and _compute_table (%s) are not top-level statements in that order"
                       % (i_dup, i_ord, i_tab))
     else:
